@@ -65,6 +65,7 @@ class ScaleMonitor:
     def attach(self):
         from pydrobert.speech import scales as S
 
+        _EXTRA_ATTACHED.clear()
         for cls in (S.LinearScaling, S.OctaveScaling, S.MelScaling, S.BarkScaling):
             monitor.attach(cls, "hertz_to_scale", post=lambda c: self.post(c, "fwd"))
             monitor.attach(cls, "scale_to_hertz", post=lambda c: self.post(c, "inv"))
@@ -147,11 +148,40 @@ class ScaleMonitor:
                             "direction": direction, "arg": arg, "case": self.case})
 
 
-def _build(name, params):
+_EXTRA_ATTACHED = set()
+
+
+def _build(name, params, how=None, mon=None):
+    """how=None: the class itself.  Otherwise the scale as configurations and filter banks obtain it - by its documented alias
+    ("from_alias", "factory_str" where no argument is needed, "factory_dict").  Whatever object the alias gives is judged against
+    the same published formula: if it is of a class that overrides the two maps, the monitor is attached to those overrides too."""
     from pydrobert.speech import scales as S
+    from pydrobert.speech.alias import alias_factory_subclass_from_arg
 
     cls = {"mel": S.MelScaling, "bark": S.BarkScaling, "linear": S.LinearScaling, "octave": S.OctaveScaling}[name]
-    return cls(**params)
+    if how is None:
+        return cls(**params)
+    alias = {"mel": "mel", "bark": "bark", "linear": "uniform" if how == "factory_dict" else "linear", "octave": "octave"}[name]
+    if how == "from_alias":
+        obj = S.ScalingFunction.from_alias(alias, **params)
+    elif how == "factory_str" and not params:
+        obj = alias_factory_subclass_from_arg(S.ScalingFunction, alias)
+    else:
+        obj = alias_factory_subclass_from_arg(S.ScalingFunction, dict(params, name=alias))
+    if mon is not None:
+        mon.rec.count("scales_obtained_by_alias")
+        if not isinstance(obj, cls):
+            mon.rec.violation({"what": "the documented alias %r gives a %s, which is not a %s" % (alias, type(obj).__name__, cls.__name__), "check": "alias_class", "cls": name,
+                               "params": dict(params), "case": mon.case})
+        elif type(obj) is not cls:
+            for k in type(obj).__mro__:
+                if k is cls:
+                    break
+                for meth, d in (("hertz_to_scale", "fwd"), ("scale_to_hertz", "inv")):
+                    if meth in k.__dict__ and (k, meth) not in _EXTRA_ATTACHED:
+                        _EXTRA_ATTACHED.add((k, meth))
+                        monitor.attach(k, meth, post=lambda c, d=d: mon.post(c, d))
+    return obj
 
 
 def _probes(case):
@@ -187,7 +217,7 @@ def run_case(case, rec, mon=None):
     kind = case["kind"]
     if kind == "grid":
         name, params = case["cls"], case["params"]
-        sc = _build(name, params)
+        sc = _build(name, params, [None, "from_alias", None, "factory_dict", None, "factory_str"][case["idx"] % 6], mon)
         fwd, inv = R.ref_pair(name, params)
         fs = _probes(case)
         use_np = case.get("np_scalar", False)
